@@ -6,17 +6,48 @@
 (* handler, kind of fallback, default set).                                *)
 EXTENDS Notify, Json
 CONSTANTS MaxTok, MaxSent
-VARIABLE hist
-GenInit == NInit /\ hist = <<nobs>>
-GenNext == NNext /\ hist' = Append(hist, nobs')
-GenSpec == GenInit /\ [][GenNext]_<<nvars, hist>>
+VARIABLES hist,
+          rord,     \* design: the kernel's ready list (inputs in the order they became ready; one that is still
+                    \* ready when a wait looks at it keeps its place, the others drop out)
+          word      \* design: the order of the listed inputs (mpt_notify_next hands out the first)
+Rng(q) == {q[k] : k \in DOMAIN q}
+Ord ==
+  LET a == nobs'.a IN
+  /\ rord' = CASE a \in {"send", "shut", "conn"} ->
+                     IF nobs'.arg.i \in Rng(rord) THEN rord ELSE Append(rord, nobs'.arg.i)
+               [] a = "wait" -> SelectSeq(rord, LAMBDA i : i \in ReadySet /\ i \in reg')
+               [] a \in {"unreg", "fini"} -> SelectSeq(rord, LAMBDA i : i \in reg')
+               [] OTHER -> rord
+  /\ word' = CASE a = "wait" -> IF ReadySet = {} THEN word ELSE SelectSeq(rord, LAMBDA i : i \in wait')
+               [] a = "next" -> IF word = <<>> THEN word ELSE Tail(word)
+               [] a = "relist" -> IF cur \in Rng(word) THEN word ELSE Append(word, cur)
+               [] a \in {"unreg", "fini"} -> SelectSeq(word, LAMBDA i : i \in wait')
+               [] OTHER -> word
+GenInit == NInit /\ hist = <<nobs>> /\ rord = <<>> /\ word = <<>>
+GenNext == NNext /\ hist' = Append(hist, nobs') /\ Ord
+GenSpec == GenInit /\ [][GenNext]_<<nvars, hist, rord, word>>
+\* behaviours are generated with the design's choice of the input mpt_notify_next returns (a recorded behaviour that
+\* differs there is handed to TLC, which accepts any listed input)
+DesignOrder == (nobs'.a = "next" /\ word # <<>>) => cur' = Head(word)
 RECURSIVE SumTo(_, _)
 SumTo(f, n) == IF n = 0 THEN 0 ELSE f[n] + SumTo(f, n - 1)
 Bound == ntok <= MaxTok /\ SumTo(sent, nin) <= MaxSent
-Skel  == <<att, ik, reg, wait, cur,
+\* quick: one run over three slices of the state space -- two harness inputs with one message; one library data
+\* input (socket pair, connected socket, FIFO) with two messages; a listener and the connection it accepts
+AllK(S)  == \A i \in 1..nin : ik[i] \in S
+SliceQ == \/ AllK({"h"}) /\ SumTo(sent, nin) <= 1
+          \/ AllK({"s", "c", "f"}) /\ nin <= 1 /\ SumTo(sent, nin) <= 2
+          \/ AllK({"l", "o", "c"}) /\ (\A i \in 1..nin : ik[i] = "c" => i > 1) /\ SumTo(sent, nin) <= 1
+BoundQ == ntok <= MaxTok /\ SliceQ
+Skel  == <<att, ik, reg, word, cur,
            [i \in 1..nin |-> <<Len(wire[i]), [k \in DOMAIN buf[i] |-> buf[i][k][1]], eof[i], conn[i]>>],
-           DOMAIN tab, IF err > 0 THEN 1 ELSE err, def>>
-Emit  == PrintT(<<"BEHAV", ToJson(hist')>>)
+           DOMAIN tab, IF err > 0 THEN 1 ELSE err, def # Zero>>
+SkelQ == <<att, ik, reg, word, cur,
+           [i \in 1..nin |-> <<Len(wire[i]), [k \in DOMAIN buf[i] |-> buf[i][k][1]], eof[i], conn[i]>>],
+           DOMAIN tab>>
+OpsAll == {"refuse", "idle", "unreg", "table", "relist"}
+OpsQ   == {"refuse", "unreg"}
+Emit  == DesignOrder /\ PrintT(<<"BEHAV", ToJson(hist')>>)
 CTexts == {}
 CHRs   == {<<1, 0>>}
 CHRs2  == {<<1, 0>>, <<-1, 0>>}
@@ -24,4 +55,5 @@ CHRsAll == {<<0, 0>>, <<1, 0>>, <<1, 1>>, <<2, 0>>, <<3, 1>>, <<4, 0>>, <<6, 0>>
 CRVs   == {1, 0, -1}
 CWhats == {-1}
 CWhats2 == {-1, 1, 4}
+CHows2 == {"shut", "close"}
 =============================================================================
